@@ -35,12 +35,6 @@ def fitUnreach (i : Input) (f : Fam) : Bool :=
   if f == Fam.ipv4 && !extNhNegotiated i then decide (maxFrame i > 21 + (5 + 2 + ap4 (addPathTx i f)))
   else decide (maxFrame i > 23 + 4 + 3 + (17 + ap4 (addPathTx i f)))
 
-/-- the model's two codecs read the capability sets as the RFCs do (for the family of the message) -/
-def negAgree (i : Input) (f : Fam) : Bool :=
-  (rxOf (negotiate i.rem i.loc) f).isSome &&
-  (negotiate i.loc i.rem).addpathTx f == addPathTx i f &&
-  (negotiate i.loc i.rem).extNh == extNhNegotiated i
-
 def nhIsV4 : Nh → Bool
   | .v4 _ => true
   | _ => false
